@@ -77,8 +77,10 @@ fn fused_bomb<T>(v: Vec<T>, k: usize) -> impl Iterator<Item = T> {
 }
 
 fn recs(r: u64, n: u64) -> Vec<GenomicRange> {
-    // names and coordinates that occur nowhere in the generated cases: anything of this that turns up later is a leak
-    (0..n).map(|i| GenomicRange::new(format!("aborted{}", (r + i) % 3), 1_000_000 + 5 * i, 1_000_000 + 5 * i + 8 + (i % 4))).collect()
+    // names and coordinates that DO occur in the generated cases (the common pool, small coordinates): whatever an aborted
+    // build leaves behind then shows up in the answers of the case that follows
+    let names = super::common::CHROMS;
+    (0..n).map(|i| GenomicRange::new(names[((r + i) % 5) as usize].to_string(), 3 * i, 3 * i + 8 + (i % 4))).collect()
 }
 
 /// Run one round of aborted operations on the current thread. `which` selects the areas (bit mask): 1 Lapper, 2 maps and
